@@ -13,12 +13,12 @@ const (
 	lockTime   = 1000 // after(1000): unsatisfied at 999 and 1000, satisfied at 1001
 )
 
-func leafAbove() Node { return Node{K: "above", U: lockHeight} }
-func leafAfter() Node { return Node{K: "after", T: lockTime} }
+func leafAbove() Node   { return Node{K: "above", U: lockHeight} }
+func leafAfter() Node   { return Node{K: "after", T: lockTime} }
 func leafPK(i int) Node { return Node{K: "pk", I: i} }
-func leafH() Node      { return Node{K: "h"} }
-func leafOp() Node     { return Node{K: "op"} }
-func leafUC() Node     { return Node{K: "uc", Keys: []UKey{{A: "ed", I: 0}}, Req: 1} }
+func leafH() Node       { return Node{K: "h"} }
+func leafOp() Node      { return Node{K: "op"} }
+func leafUC() Node      { return Node{K: "uc", Keys: []UKey{{A: "ed", I: 0}}, Req: 1} }
 
 // tuples calls f with every tuple of length b over alphabet indices [0,k).
 func tuples(k, b int, f func(idx []int)) {
